@@ -9,6 +9,7 @@ import types_chan as tc
 import macro_chan as mc
 import own_chan as oc
 import mut_chan as mu
+import conc_chan as cn
 
 
 # ----------------------------------------------------------------------------
@@ -903,5 +904,129 @@ class C20(CaseSpec):
         return mu.oracle_mut(case, obs)
 
 
-REGISTRY = {"C20": C20, "C19": C19, "C14": C14, "C16": C16, "C11": C11, "C12": C12, "C13": C13, "C18": C18, "C01": C01, "C02": C02, "C03": C03, "C04": C04, "C05": C05, "C06": C06, "C07": C07, "C08": C08,
+# ----------------------------------------------------------------------------
+# C17: concurrent operations on sync nodes
+# ----------------------------------------------------------------------------
+class C17(CaseSpec):
+    flavours = ["sync_digraph", "sync_ungraph"]
+    hang_secs = 12
+
+    def assumptions(self):
+        return ["threads are real OS threads run one at a time by a cooperative scheduler that switches only at lock points (hook, cfg gdsl_verif): this explores "
+                "every interleaving of the critical sections but not OS-level fairness, the futex RwLock's writer preference beyond the guard-held probe, or memory-model effects",
+                "concurrent traversals are represented by edge-iteration loops (their shared-state accesses are the same next() critical sections)",
+                "known findings (KNOWN_FINDINGS.txt): the interference classes of D11 — two-phase mutations are not atomic"]
+
+    def stress(self, violations, prop):
+        """free-running smoke test: a stall is a deadlock (never a known finding)"""
+        res = {}
+        for fl in self.flavours:
+            for scen in ("queries", "disconnect"):
+                rc, out = vlib.sh([vlib.HARNESS_BIN, "stress", fl, scen, "1200"], timeout=60)
+                res["%s/%s" % (fl, scen)] = out.strip().splitlines()[-1] if out.strip() else "rc=%d" % rc
+                if rc != 0:
+                    rp = write_replay(prop, {"kind": "failing-input", "flavour": fl, "oracle": "free-running threads stall: " + res["%s/%s" % (fl, scen)],
+                                             "command": "%s stress %s %s" % (vlib.HARNESS_BIN, fl, scen)})
+                    violations.append((rp, ""))
+        return res
+
+    def decide(self, case, obs_text, serial_outcomes):
+        """C17 on one schedule of the implementation; returns (message or None, hard)
+        hard = never excusable by a known class (deadlock / hang / guard held across a lock point)"""
+        o = cn.parse_sched_obs(obs_text)
+        if o["hang"]:
+            return "a call never returns (thread blocked inside the library)", True
+        if o["deadlock"]:
+            return "deadlock: every unfinished thread is blocked on a lock", True
+        if o["held"]:
+            return "a lock is requested while a guard is still alive (lock discipline): %s" % [e for e in o["events"] if e.endswith("!held")][:2], True
+        if any(st == "panic" for (st, _) in o["threads"]) or o["pois"]:
+            return "a call panicked%s" % (" and poisoned the lock of node(s) %s" % o["pois"] if o["pois"] else ""), False
+        if cn.outcome_of(o) not in serial_outcomes:
+            return "results and final graph are not those of any sequential order of the calls", False
+        return None, False
+
+    def correspondence(self, prop, tier, rng, workdir, pr, violations):
+        t1 = time.time()
+        stress = self.stress(violations, prop)
+        corpus = [c for c in load_corpus(prop)]
+        scen = []
+        for cls in ("D", "U"):
+            scen += cn.gen_scenarios(cls, rng, tier)
+        for c in corpus:
+            c.tags = dict(kind="corpus", known=c.name.split(":")[0].replace("known_", "") if c.name.startswith("known_") else None, threads=[], n=0)
+            if not any(s == "explore" for s in c.steps):
+                c.steps.append("explore")
+        allsc = corpus + scen
+        limit = 0 if tier == "thorough" else 60
+        cases, counts = cn.explore(allsc, workdir, limit)
+        results, fls = vlib.run_all(cases, workdir, "c", flavours=self.flavours, hang_secs=self.hang_secs, nshards=32)
+        dis = vlib.compare(cases, results, fls)
+        log("[%s] %d scenarios, %d schedules replayed on %s, %d disagreements, %.1fs" % (prop, len(allsc), len(cases), fls, len(dis), time.time() - t1))
+        # group by scenario
+        by_scen = {}
+        for c in cases:
+            by_scen.setdefault(c.tags["scenario"], []).append(c)
+        known_hit, new_bad = {}, []
+        listed = {kf.get("class"): kf for kf in vlib.known_findings(prop)}
+        for fl in fls:
+            cl = "D" if fl == "sync_digraph" else "U"
+            for sname, cs in by_scen.items():
+                if cs[0].cls != cl:
+                    continue
+                obs = {}
+                for c in cs:
+                    r = results[fl].get(c.name)
+                    if c.name in results["hangs"][fl] or not r:
+                        obs[c.name] = "ev | HANG"
+                    else:
+                        obs[c.name] = r[-1][1]
+                serial = set()
+                for c in cs:
+                    if c.tags["serial"]:
+                        serial.add(cn.outcome_of(cn.parse_sched_obs(obs[c.name])))
+                for c in cs:
+                    msg, hard = self.decide(c, obs[c.name], serial)
+                    if not msg:
+                        continue
+                    k = c.tags.get("known")
+                    if k and not hard and k in listed:
+                        known_hit.setdefault(k, (fl, c, msg))
+                    else:
+                        new_bad.append((fl, c, msg, obs[c.name]))
+        for k in sorted(known_hit):
+            fl, c, msg = known_hit[k]
+            self.known_lines.append("class=%s %s -- still fails, e.g. %s on %s: %s" % (
+                k, listed[k]["text"][:160], [s for s in c.steps if s.startswith(("con", "thr", "sched"))], fl, msg))
+        shown = set()
+        for (fl, c, msg, text) in new_bad:
+            sig = (fl, msg[:40])
+            if sig in shown or len(shown) >= 3:
+                continue
+            shown.add(sig)
+            rp = write_replay(prop, {"kind": "failing-input", "class": c.cls, "flavours": [fl], "case": c.steps, "implementation": text,
+                                     "model": (results.get("model", {}).get(c.name) or [[0, ""]])[-1][1], "oracle": msg})
+            violations.append((rp, ""))
+        if dis and not new_bad:
+            d = dis[0]
+            c = {x.name: x for x in cases}[d["case"]]
+            rp = write_replay(prop, {"kind": "correspondence-broken", "class": c.cls, "flavours": [d["flavour"]], "case": c.steps, "first_disagreement": d,
+                                     "broken": "conc channel: real threads under the scheduler and Conc.v differ (lock-point sequence, results or final graph)"})
+            violations.append((rp, "no-failing-input-found"))
+        nk = len([c for c in allsc if c.tags.get("known")])
+        cov = dict(evaluations=len(cases) * len(fls), distinct_nontrivial=len(set(vlib.case_hash(c) for c in cases if len(c.steps[-1].split()) > 3)),
+                   rule="scenario = initial graph + 2-3 thread programs (connect, try_connect, disconnect, isolate, degree/is_orphan/is_connected queries, edge iteration); the "
+                        "extracted model (Conc.v) enumerates the maximal schedules (interleavings of critical sections)%s; each is replayed on real threads of sync_digraph / "
+                        "sync_ungraph under the cooperative scheduler; compared: lock-point sequence (thread, node, read/write), per-thread results, panics, poisoned locks, final "
+                        "graph. decided per schedule: no hang/deadlock/guard held at a lock point; no panic; outcome equals that of a serial schedule. non-trivial = schedule "
+                        "with more than 3 steps" % ("" if limit == 0 else " (first %d per scenario in the quick tier)" % limit),
+                   samples=[dict(name=c.name, steps=c.steps) for c in cases[:1] + cases[len(cases) // 2: len(cases) // 2 + 1]],
+                   scenarios=len(allsc), scenarios_in_known_classes=nk, scenarios_outside_known_classes=len(allsc) - nk,
+                   schedules_total=sum(counts.values()), schedules_replayed=len(cases), traces_validated_against_impl=len(cases) * len(fls) - len(dis),
+                   disagreements=len(dis), known_classes_reproduced=sorted(known_hit), free_running_stress=stress,
+                   exhaustive=(tier == "thorough"), exhaustive_space="2 threads x 1 call over 2 nodes: every pair of calls x every initial edge set with <=2 edges, all schedules" if tier == "thorough" else "")
+        return cov
+
+
+REGISTRY = {"C17": C17, "C20": C20, "C19": C19, "C14": C14, "C16": C16, "C11": C11, "C12": C12, "C13": C13, "C18": C18, "C01": C01, "C02": C02, "C03": C03, "C04": C04, "C05": C05, "C06": C06, "C07": C07, "C08": C08,
             "C09": C09, "C10": C10}
